@@ -202,7 +202,7 @@ func genPlan(t *rapid.T, tier string) any {
 			s.Nth = rapid.IntRange(0, 4).Draw(t, "nth")
 			if rapid.IntRange(0, 2).Draw(t, "recfault") == 0 {
 				// the trim record cannot be read this time (I/O error, permission): like a corrupt or missing record
-				s.FaultOp = rapid.SampledFrom([]string{"open", "read"}).Draw(t, "faultop")
+				s.FaultOp = rapid.SampledFrom([]string{"open", "read", "write"}).Draw(t, "faultop")
 				s.Nth = 0
 			}
 		}
@@ -273,7 +273,7 @@ func run(t *testing.T, plan any, keep bool) *simcheck.Outcome {
 	// returned and by the steps that rewrite trim.txt), not whatever the file holds right now
 	modelRec := ""
 	modelRecOK := false
-	crashes, rmFaults, recFaults, clockDuring := 0, 0, 0, 0
+	crashes, rmFaults, recFaults, recWriteFaults, clockDuring := 0, 0, 0, 0, 0
 	trimsDue, trimsNotDue, removed, keptNearBoundary := 0, 0, 0, 0
 	jumped := false
 
@@ -465,7 +465,10 @@ func run(t *testing.T, plan any, keep bool) *simcheck.Outcome {
 					simos.Disarm()
 				} else if st.Errno != "" {
 					nf := len(simos.FiredAt())
-					if st.FaultOp != "" {
+					if st.FaultOp == "write" {
+						// the new trim record cannot be written (disk full, quota): this Trim may report failure, later ones must still work
+						simos.Arm([]simos.Fault{{Proc: -1, Op: "write", Class: "trim", Nth: 0, Action: "error", Errno: "ENOSPC"}})
+					} else if st.FaultOp != "" {
 						simos.Arm([]simos.Fault{{Proc: -1, Op: st.FaultOp, Class: "trim", Nth: 0, Action: "error", Errno: st.Errno}})
 					} else {
 						simos.Arm([]simos.Fault{{Proc: -1, Op: "remove", Nth: st.Nth, Action: "error", Errno: st.Errno}})
@@ -473,6 +476,11 @@ func run(t *testing.T, plan any, keep bool) *simcheck.Outcome {
 					err := c.Trim()
 					simos.Disarm()
 					for _, f := range simos.FiredAt()[nf:] {
+						if st.FaultOp == "write" {
+							recWriteFaults++
+							state = "failed" // the scan may be complete, the record is whatever the failed write left: follow the file
+							continue
+						}
 						if st.FaultOp != "" {
 							recFaults++
 							// An unreadable record is like a corrupt or missing one: a trim that the history makes
@@ -646,6 +654,7 @@ func run(t *testing.T, plan any, keep bool) *simcheck.Outcome {
 	out.Count("fired_remove_failed_during_trim", int64(rmFaults))
 	out.Count("fired_trim_record_unreadable", int64(recFaults))
 	out.Count("fault_clock_moved_during_trim", int64(clockDuring))
+	out.Count("fired_trim_record_write_failed", int64(recWriteFaults))
 	out.Count("trims_due", int64(trimsDue))
 	out.Count("trims_not_due", int64(trimsNotDue))
 	out.Count("entry_files_removed_by_trim", int64(removed))
@@ -673,7 +682,7 @@ var harness = &simcheck.Harness{
 	Level:    "exploration",
 	Rule: "rapid draws a history of up to 16 (quick) / 30 (thorough) steps: Put, Get, GetBytes, GetFile, OutputFile, clock advances drawn mostly from boundary values " +
 		"(1s ... 24h+-1m, 5d+-1m, 5d1h+-1s/1m, 30d), Trim, trim-record rewrites (valid with recent/old/future offsets, garbage, empty, missing), foreign files, " +
-		"directly aged entry files, and (a quarter of the plans) backward clock jumps; plus macro steps (look an entry up after a gap of under two hours; move the clock to an entry file's last use + 5d or 5d1h +- jitter and Trim; move it to the trim record + 24h +- jitter and Trim; a Trim whose process halts before its k-th file operation; a Trim one of whose removals fails with EPERM/EBUSY/EIO/EACCES - that file may stay, every other stale entry must still go; a Trim during which the trim record cannot be opened or read - a due trim must still do all its work; a Trim during whose scan the clock moves forward by 1 s to 59 min), half the plans with all action ids in one cache subdirectory, a third starting with a store / two lookups / trim-at-threshold scenario, foreign non-empty directories with entry-like names inside an entry subdirectory; non-trivial = the history contains a Trim; " +
+		"directly aged entry files, and (a quarter of the plans) backward clock jumps; plus macro steps (look an entry up after a gap of under two hours; move the clock to an entry file's last use + 5d or 5d1h +- jitter and Trim; move it to the trim record + 24h +- jitter and Trim; a Trim whose process halts before its k-th file operation; a Trim one of whose removals fails with EPERM/EBUSY/EIO/EACCES - that file may stay, every other stale entry must still go; a Trim during which the trim record cannot be opened or read - a due trim must still do all its work; a Trim whose record write fails with ENOSPC - it may report failure, later trims must work; a Trim during whose scan the clock moves forward by 1 s to 59 min), half the plans with all action ids in one cache subdirectory, a third starting with a store / two lookups / trim-at-threshold scenario, foreign non-empty directories with entry-like names inside an entry subdirectory; non-trivial = the history contains a Trim; " +
 		"distinct by the hash of the intercepted file-operation sequence",
 	Gen:     genPlan,
 	NewPlan: func() any { return &Plan{} },
